@@ -11,6 +11,15 @@
 // internal slice (VerifEntries) must consist of zone-less, masked 128-bit
 // prefixes, strictly increasing, pairwise disjoint, covering exactly the union
 // of the inputs (interval-union equality, computed independently).
+//
+// Phase "lines" (lines.go) hands the text loaders sources whose physical lines
+// fall in every length class around 4 KiB .. 128 KiB (long trailing comments,
+// long comment / blank lines, entries behind or before long runs of blanks,
+// LF / CRLF, with / without final newline), with address-like bait planted in
+// the comments, through whole / one-byte / half / chunked / failing readers,
+// ip_set.LoadFromFiles, the ip_set constructor (ips + files + sets) and the
+// client_ip / resp_ip matcher constructors. A load is either refused with an
+// error or must agree with the harness' own reference parser of the format.
 package main
 
 import (
@@ -154,10 +163,11 @@ type workerState struct {
 
 func main() {
 	rep = evid.New("C13", "exploration")
-	rep.SetRule("cases = multisets of IPv4/IPv6 prefixes and bare addresses (random sets grown by duplicate / same-base / child / parent / sibling / touching-block operators; every ordered pair of lengths 0..32 and 0..128 in 4 geometric relations; all 32767 subsets of a complete 3-level prefix subtree at 8 places incl. both ends of the address space and of the mapped range; random DAGs of 3..9 cooperating ip_set plugins with shared referenced sets, each set probed after its own and after all constructions against its own + transitively referenced prefixes), each loaded in 3 orders through Append, LoadFromText, LoadFromReader and ip_set, probed at first/last/neighbour addresses of every prefix + extremes + random, in v6 and v4 form. A case is non-trivial if it has >= 2 prefixes of which at least two are duplicates, share a base, are nested or touch, and the oracle answers both true and false for its probes; distinct = distinct multisets of (masked base, length)")
+	rep.SetRule("cases = multisets of IPv4/IPv6 prefixes and bare addresses (random sets grown by duplicate / same-base / child / parent / sibling / touching-block operators; every ordered pair of lengths 0..32 and 0..128 in 4 geometric relations; all 32767 subsets of a complete 3-level prefix subtree at 8 places incl. both ends of the address space and of the mapped range; random DAGs of 3..9 cooperating ip_set plugins with shared referenced sets, each set probed after its own and after all constructions against its own + transitively referenced prefixes), each loaded in 3 orders through Append, LoadFromText, LoadFromReader and ip_set, probed at first/last/neighbour addresses of every prefix + extremes + random, in v6 and v4 form; plus text sources of 0..7 entries whose physical lines have lengths just below / at / just above / between 4096, 8192, 12288, 16384, 32768, 65536, 131072 bytes (entry + long comment, long comment, long blank line, blanks + entry also straddling a boundary, entry + blanks + trailing text; LF / CRLF / no final newline; address-like bait inside the comments at line- and file-relative multiples of 512..32768, in aligned cells, behind blanks, at random offsets, flush with the line end), loaded in 2 line orders through LoadFromReader (whole, 1-byte, half, chunked, data-with-EOF and failing readers), LoadFromFiles, the ip_set constructor with lines dealt to ips / 1..3 files / a referenced set, and client_ip / resp_ip quick setup, probed additionally at first/last/neighbours of every bait; every load must be refused with an error or agree with the reference parser (a lines case is non-trivial if it has a line >= 4094 bytes, at least one load was accepted and the reference answers both true and false). A case of the other phases is non-trivial if it has >= 2 prefixes of which at least two are duplicates, share a base, are nested or touch, and the oracle answers both true and false for its probes; distinct = distinct multisets of (masked base, length)")
 	rep.Assume("net/netip parsing and formatting (ParseAddr, ParsePrefix, AddrFrom4/16, As16) are trusted; the oracle itself uses only byte arrays and its own bit compare, cross-checked against math/big at start-up")
 	rep.Assume("zoned addresses and invalid netip.Addr / netip.Prefix values are out of scope and never generated")
 	rep.Assume("text inputs are restricted to forms the loaders document: one address or CIDR per line, '#' comments, text after the first blank ignored, surrounding blanks/tabs/CR; a tab directly before '#' is not generated (the loader rejects such a line with an error, it does not mis-load it)")
+	rep.Assume("lines phase: the list format is read as: lines end at LF; blanks (space, tab, CR, VT, FF) around a line are ignored; everything from the first '#', and from the first space, is comment; the rest is one address or CIDR. A loader may refuse any source with an error (e.g. lines beyond a length limit, a failing reader); only sources it accepts are compared. A lone CR inside a line is never followed by bait")
 	rep.Assume("universals are sampled: a clean run means 'held on the generated sets and probes', not 'verified'")
 
 	if err := selfTest(rep.Seed); err != nil {
@@ -257,7 +267,7 @@ func main() {
 
 	// text sources in every line-length class (lines.go); appended last so that the
 	// case indices (and with them the cases) of the phases above stay what they were
-	for i, n := 0, rep.Pick(1500, 60000); i < n; i++ {
+	for i, n := 0, rep.Pick(1500, 40000); i < n; i++ {
 		add(job{phase: "lines"})
 	}
 
